@@ -180,7 +180,7 @@ fn download(peer: &Peer, first: &(Vec<u8>, SocketAddr), listener: SocketAddr, si
             Some(d) => Some(d),
             // after the final block the remaining copies (duplicate mode) follow within milliseconds; leave room for a loaded machine
             None => {
-                let all_copies_in = final_n.map(|n| copies.get(&n) == Some(&rep)).unwrap_or(false);
+                let all_copies_in = final_n.map(|_| copies.get(&(expect - 1)) == Some(&rep)).unwrap_or(false);
                 peer.recv(if !done { 1500 } else if all_copies_in { 60 } else { 400 }).map(|x| x.0)
             }
         };
@@ -203,7 +203,10 @@ fn download(peer: &Peer, first: &(Vec<u8>, SocketAddr), listener: SocketAddr, si
             first_burst += 1;
         }
         let n = ((dg[2] as u64) << 8) | dg[3] as u64;
-        *copies.entry(n).or_insert(0) += 1;
+        // copies are counted per block, not per 16-bit number: the block meant is the one nearest to the expected one
+        let base = expect - expect % 65536;
+        let abs = [base + n, (base + n).saturating_sub(65536), base + n + 65536].into_iter().min_by_key(|a| a.abs_diff(expect)).unwrap();
+        *copies.entry(abs).or_insert(0) += 1;
         let payload = &dg[4..];
         maxpay = maxpay.max(payload.len());
         if !done && n == expect % 65536 {
@@ -228,6 +231,69 @@ fn download(peer: &Peer, first: &(Vec<u8>, SocketAddr), listener: SocketAddr, si
     let mults: std::collections::BTreeSet<u64> = copies.values().cloned().collect();
     let mult = if mults.len() == 1 { mults.iter().next().unwrap().to_string() } else if mults.is_empty() { "0".into() } else { "var".into() };
     format!("dl={}/{}/{}/{}/{}/x{}/{}", fp(&got), ndata, maxpay, first_burst, mult, strays, if done { "done" } else { "incomplete" })
+}
+
+/// A conformant download client whose ACKs arrive in disorder: after every window it sends the ACK of the window and,
+/// straight behind it, the ACK of an earlier block once more (an ACK overtaken on the way).  Reports the file, the number
+/// of DATA datagrams that carried a block number below one already seen (a cumulative-ACK sender never goes back), and
+/// whether the transfer completed.
+fn download_reordered(peer: &Peer, first: &(Vec<u8>, SocketAddr), listener: SocketAddr, single: bool) -> String {
+    let (first_bytes, tid) = (first.0.clone(), if single { listener } else { first.1 });
+    let neg = negotiated(&first_bytes);
+    let mut pending: Option<Vec<u8>> = None;
+    if first_bytes.len() >= 2 && first_bytes[1] == 6 {
+        peer.sock.send_to(&raw_ack(0), tid).unwrap();
+    } else if first_bytes.len() >= 2 && first_bytes[1] == 3 {
+        pending = Some(first_bytes.clone());
+    } else {
+        return "ra=-".into();
+    }
+    let mut expect: u64 = 1;
+    let mut got: Vec<u8> = vec![];
+    let mut in_window = 0u64;
+    let mut maxseen = 0u64;
+    let mut regress = 0u64;
+    let mut done = false;
+    let deadline = Instant::now() + Duration::from_secs(8);
+    loop {
+        let dg = match pending.take() {
+            Some(d) => Some(d),
+            None => peer.recv(if done { 150 } else { 1500 }).map(|x| x.0),
+        };
+        let dg = match dg {
+            Some(d) => d,
+            None => break,
+        };
+        if Instant::now() > deadline {
+            break;
+        }
+        if dg.len() < 4 || dg[1] != 3 {
+            continue;
+        }
+        let n = ((dg[2] as u64) << 8) | dg[3] as u64;
+        if n < maxseen {
+            regress += 1;
+        }
+        maxseen = maxseen.max(n);
+        let payload = &dg[4..];
+        if !done && n == expect % 65536 {
+            got.extend_from_slice(payload);
+            expect += 1;
+            in_window += 1;
+            let fin = payload.len() < neg.blk;
+            if fin || in_window == neg.ws {
+                peer.sock.send_to(&raw_ack(n as u16), tid).unwrap();
+                if n >= 2 {
+                    peer.sock.send_to(&raw_ack((n - 2) as u16), tid).unwrap();
+                }
+                in_window = 0;
+            }
+            if fin {
+                done = true;
+            }
+        }
+    }
+    format!("ra={}/{}/{}", fp(&got), regress, if done { "done" } else { "incomplete" })
 }
 
 /// Lock-step conformant upload client.
@@ -380,11 +446,42 @@ pub fn run_srv(toks: &[&str], dir: &Path) -> String {
                     let e = Packet::Error { code: tftpd::ErrorCode::NotDefined, msg: "done".into() };
                     let _ = peer.sock.send_to(&e.serialize().unwrap(), tid);
                     settle(30);
-                } else if cont == "E" {
+                } else if cont == "K" {
+                    // a repeated ACK 1.5 s before the acknowledged timeout has elapsed must not bring the retransmission forward
+                    let tid = if single { listener } else { r.1 };
+                    let mut tmo = 5u64;
+                    if let Ok(Packet::Oack(opts)) = Packet::deserialize(&r.0) {
+                        for o in opts {
+                            if let tftpd::OptionType::Timeout = o.option {
+                                tmo = o.value as u64;
+                            }
+                        }
+                    }
+                    let oack = r.0.len() >= 2 && r.0[1] == 6;
+                    if oack {
+                        peer.sock.send_to(&raw_ack(0), tid).unwrap();
+                        let _ = peer.recv(500); // DATA 1
+                    }
+                    // silence until 1.5 s before the timeout, then the repeated ACK, then listen for 1.2 s
+                    let before = peer.recv(tmo * 1000 - 1500);
+                    let early = if before.is_some() {
+                        true
+                    } else {
+                        peer.sock.send_to(&raw_ack(0), tid).unwrap();
+                        matches!(peer.recv(1200), Some((d, _)) if d.len() >= 4 && d[1] == 3)
+                    };
+                    out.push(format!("early={}", if early { 1 } else { 0 }));
+                    let _ = peer.sock.send_to(&raw_error(0, "done"), tid);
+                    settle(30);
+                } else if cont == "R" {
+                    out.push(download_reordered(peer, r, listener, single));
+                    settle(3);
+                } else if cont == "E" || cont == "F" {
                     let tid = if single { listener } else { r.1 };
                     if r.0.len() >= 2 && r.0[1] != 5 {
-                        let e = Packet::Error { code: tftpd::ErrorCode::NotDefined, msg: "abort".into() };
-                        let _ = peer.sock.send_to(&e.serialize().unwrap(), tid);
+                        // F: a long message with a two-byte character across byte 128
+                        let e = if cont == "E" { raw_error(0, "abort") } else { raw_error_variant(0, 4) };
+                        let _ = peer.sock.send_to(&e, tid);
                         settle(60);
                     }
                 }
@@ -667,6 +764,44 @@ pub fn gen_srv(rng: &mut Rng, count: u64, tier: &str) -> Vec<String> {
             out.push(format!("srv os 0 {tree} q0:{w}:-;q1:{w}:UP900_5;w7300;x0;{probe}"));
         }
     }
+    // uploads longer than the largest block, block sizes at and beyond the upper bound: the block length the server
+    // stores must be the one it acknowledged
+    for flags in ["-", "s"] {
+        for b in ["65464", "65465", "65500", "65503"] {
+            let o = vec![("blksize".to_string(), b.to_string())];
+            out.push(format!("srv {flags} 0 {tree} q0:{}:UP70000_5;{probe}", hex(&req(2, b"hugeup.bin", &o))));
+        }
+    }
+    // a file longer than any read-ahead buffer, block sizes that divide no power of two: every block but the last is full
+    for flags in ["-", "s"] {
+        for (b, w) in [("1468", "4"), ("1000", "1"), ("1428", "3"), ("9", "64"), ("8191", "2"), ("100", "16")] {
+            let o = vec![("blksize".to_string(), b.to_string()), ("windowsize".to_string(), w.to_string())];
+            out.push(format!("srv {flags} 0 {tree} q0:{}:D;{probe}", hex(&req(1, b"huge", &o))));
+        }
+    }
+    // files of one repeated byte: adjacent blocks are identical, inside a window and across windows
+    for flags in ["-", "s", "o"] {
+        for (b, w, len) in [("8", "2", 16u64), ("8", "2", 51), ("8", "4", 64), ("512", "3", 4096), ("16", "8", 1000), ("512", "1", 2048)] {
+            let o = vec![("blksize".to_string(), b.to_string()), ("windowsize".to_string(), w.to_string())];
+            out.push(format!("srv {flags} 0 {tree} q0:{}:UZ{len}_0;q1:{}:D;{probe}", hex(&req(2, b"same.bin", &o)), hex(&req(1, b"a.txt", &[]))));
+        }
+    }
+    // a completed upload survives a later download of it that fails; an upload aborted with a long message is cleaned up
+    for flags in ["-", "o", "s", "k", "so"] {
+        let u = hex(&req(2, b"fresh.bin", &[]));
+        let d = hex(&req(1, b"fresh.bin", &[]));
+        let dw = hex(&req(1, b"fresh.bin", &[("windowsize".to_string(), "2".to_string())]));
+        out.push(format!("srv {flags} 0 {tree} q0:{u}:UP700_2;q1:{d}:E;{probe}"));
+        out.push(format!("srv {flags} 0 {tree} q0:{u}:UP1300_3;q1:{dw}:E;q2:{d}:D;{probe}"));
+        out.push(format!("srv {flags} 0 {tree} q0:{u}:F;{probe}"));
+        out.push(format!("srv {flags} 0 {tree} q0:{}:F;q1:{u}:UP600_1;{probe}", hex(&req(2, b"sub/part.bin", &[("blksize".to_string(), "1024".to_string())]))));
+    }
+    // single-port mode, an endpoint whose download is still running asks again: the refusals come all the same
+    for (flags, w) in [("sr", "new.bin"), ("s", "a.txt"), ("sr", "a.txt"), ("sk", "old.bin")] {
+        let hold = hex(&req(1, b"big", &[]));
+        out.push(format!("srv {flags} 0 {tree} q0:{hold}:-;q0:{}:-;q0:{}:-;{probe}", hex(&req(2, w.as_bytes(), &[])), hex(&req(1, b"nope", &[]))));
+        out.push(format!("srv {flags} 0 {tree} q0:{hold}:-;q0:{}:-;q0:{}:-;{probe}", hex(&req(1, b"sub/nope", &[])), hex(&req(2, w.as_bytes(), &[("blksize".to_string(), "64".to_string())]))));
+    }
     for _ in 0..count {
         let mut flags = String::new();
         for (f, num, den) in [('s', 1, 2), ('r', 1, 6), ('o', 1, 2), ('k', 1, 4), ('d', 1, 2)] {
@@ -704,6 +839,32 @@ pub fn gen_srv(rng: &mut Rng, count: u64, tier: &str) -> Vec<String> {
         }
         steps.push(probe.clone());
         out.push(format!("srv {flags} {dup} {tree} {}", steps.join(";")));
+    }
+    out
+}
+
+/// SRV-RT: the few histories that take real seconds (one per harness process): ACKs that arrive in disorder while the
+/// worker is busy sending copies, downloads across the block-number wrap through the real listener.  (Retransmission
+/// timing is measured on the real binaries, suite bin: in this process the workers run on the simulated clock.)
+pub fn gen_srv_rt(_rng: &mut Rng, _count: u64, tier: &str) -> Vec<String> {
+    let tree = tree_token();
+    let mut out = vec![];
+    let probe = format!("q9:{}:D", hex(&req(1, b"probe.txt", &[])));
+    // single-port mode, duplicate-packets mode (the worker is busy sending copies while the ACKs come in):
+    // ACK of the window and a stale ACK straight behind it
+    for (dup, ws) in [(3u8, "4"), (5, "4"), (2, "8"), (0, "4")] {
+        let o = vec![("blksize".to_string(), "8".to_string()), ("windowsize".to_string(), ws.to_string())];
+        out.push(format!("srv s {dup} {tree} q0:{}:R;{probe}", hex(&req(1, b"a.txt", &o))));
+        out.push(format!("srv - {dup} {tree} q0:{}:R;{probe}", hex(&req(1, b"a.txt", &o))));
+    }
+    // more than 65536 blocks through the real listener (the handshake code sees the file's length)
+    let wrap_tree = format!("{tree},f:{}:P524290_11,f:{}:P524288_12", hex(b"srv/wrap"), hex(b"srv/wrap0"));
+    let o8 = |ws: &str| vec![("blksize".to_string(), "8".to_string()), ("windowsize".to_string(), ws.to_string())];
+    out.push(format!("srv - 0 {wrap_tree} q0:{}:D;{probe}", hex(&req(1, b"wrap", &o8("4")))));
+    out.push(format!("srv s 0 {wrap_tree} q0:{}:D;{probe}", hex(&req(1, b"wrap0", &o8("64")))));
+    if tier == "thorough" {
+        out.push(format!("srv - 0 {wrap_tree} q0:{}:D;{probe}", hex(&req(1, b"wrap0", &o8("1")))));
+        out.push(format!("srv s 0 {wrap_tree} q0:{}:D;{probe}", hex(&req(1, b"wrap", &o8("7")))));
     }
     out
 }
